@@ -6,13 +6,14 @@ import (
 	"go/token"
 	"go/types"
 	"sort"
+	"strconv"
 	"strings"
 
 	"golang.org/x/tools/go/ssa"
 )
 
 func init() {
-	props["C11"] = &propDef{extraPkgs: []string{jsonPatchPkg}, run: runC11, explanation: "C11 decided statically across the validator and the RFC 6902 library (loaded from source): (X1) K_lib = the operation-map members whose decoded string reaches the pointer argument of the library's findObject (extracted from the library's SSA: today {path, from}); for every member in K_lib and both protected prefixes, every iteration of the validator's per-operation loop crosses the rejecting test strings.HasPrefix(decoded member, prefix) unless the member is absent / null / not a string (cases in which the library substitutes the unusable pointer \"unknown\"); an accepting return inside the loop is a failure (for-all form); (K1) the two prefixes are \"/\"+document.ServiceProperty and \"/\"+document.PublicKeyProperty, the constants through which the composer and accessors address those members; validator and composer decode the patch with the same library function; (G1) in every applier path ApplyPatches(…, op.Delta.Patches) lies behind ValidateDelta(op.Delta) on the same delta, and ValidateDelta validates every patch. Argued, not checked: RFC 6901 escapes cannot spell the protected names; the root pointer cannot be added/replaced in library v4.1.0. (X3) the composer applies a validated ietf-json-patch through the library only (the same fold rule as C10.P1). Validator and composer decode json.Marshal of the patch's own value; 'does not start with the protected prefix' is recognised in every spelling. Patch application reads no package-level state that changes after initialisation (no result cache). The fold rule and the patch accessor rules run inside this check."}
+	props["C11"] = &propDef{extraPkgs: []string{jsonPatchPkg}, run: runC11, explanation: "C11 decided statically across the validator and the RFC 6902 library (loaded from source): (X1) K_lib = the operation-map members whose decoded string reaches the pointer argument of the library's findObject (extracted from the library's SSA: today {path, from}); for every member in K_lib and both protected prefixes, every iteration of the validator's per-operation loop crosses the rejecting test strings.HasPrefix(decoded member, prefix) unless the member is absent / null / not a string (cases in which the library substitutes the unusable pointer \"unknown\"); an accepting return inside the loop is a failure (for-all form); (K1) the two prefixes are \"/\"+document.ServiceProperty and \"/\"+document.PublicKeyProperty, the constants through which the composer and accessors address those members; validator and composer decode the patch with the same library function; (G1) in every applier path ApplyPatches(…, op.Delta.Patches) lies behind ValidateDelta(op.Delta) on the same delta, and ValidateDelta validates every patch. Argued, not checked: RFC 6901 escapes cannot spell the protected names; the root pointer cannot be added/replaced in library v4.1.0. (X3) the composer applies a validated ietf-json-patch through the library only (the same fold rule as C10.P1). Validator and composer decode json.Marshal of the patch's own value; 'does not start with the protected prefix' is recognised in every spelling. Patch application reads no package-level state that changes after initialisation (no result cache). The fold rule and the patch accessor rules run inside this check. C10.E1's ietf-json-patch rules and the fold rule's C19.G / C19.H obligations run here."}
 }
 
 func runC11(c *Ctx) {
@@ -287,6 +288,11 @@ func runC11(c *Ctx) {
 	}
 	c.Min("C11.G1", 8)
 	c.Assume("json-patch v4.1.0 semantics: a member that is absent, null or not a JSON string yields the pointer \"unknown\", for which findObject fails; RFC 6901 escapes (~0, ~1) introduce only '~' and '/', neither of which occurs in the protected member names; findObject returns nil for the root pointer")
+	// "and then applied": the handler that applies the validated operations hands them to the RFC 6902 library and
+	// writes nothing into the document itself (C10.E1) — a path of its own reads the pointers its own way, not the
+	// validator's
+	c.only(runC10, "C10.E1::ietf-json-patch")
+	c.Min("C10.E1", 2)
 }
 
 // pvJSONValidate: the exported validator method that leads to the pointer validator V (its frame holds the patch).
@@ -311,11 +317,19 @@ func (c *Ctx) prefixTest(call *ssa.Call, env Env) (string, string, bool) {
 	if g == nil || g.String() != "strings.HasPrefix" || len(call.Call.Args) != 2 {
 		return "", "", false
 	}
-	k, isK := call.Call.Args[1].(*ssa.Const)
-	if !isK || k.Value == nil || k.Value.Kind() != constant.String {
+	pre := ""
+	if k, isK := call.Call.Args[1].(*ssa.Const); isK && k.Value != nil && k.Value.Kind() == constant.String {
+		pre = constant.StringVal(k.Value)
+	} else if p := c.Path(call.Call.Args[1], env); !isK && len(p) >= 2 && p[0] == '"' {
+		// (the prefix of the table row under consideration: a constant text in that row's frame)
+		u, err := strconv.Unquote(p)
+		if err != nil {
+			return "", "", false
+		}
+		pre = u
+	} else {
 		return "", "", false
 	}
-	pre := constant.StringVal(k.Value)
 	if ex, isEx := call.Call.Args[0].(*ssa.Extract); isEx && ex.Index == 0 {
 		if cut, isC := ex.Tuple.(*ssa.Call); isC && cut.Call.StaticCallee() != nil && cut.Call.StaticCallee().String() == "strings.CutPrefix" {
 			if k0, isK0 := cut.Call.Args[1].(*ssa.Const); isK0 && k0.Value != nil && k0.Value.Kind() == constant.String {
